@@ -570,6 +570,13 @@ def eval3(cond, assume):
     iv = int_value(n)
     if iv is not None:
         return bool(iv)
+    if k == 'DeclRefExpr':
+        # a named boolean assigned only by its declaration stands for its initialiser
+        rd = n.get('referencedDecl') or {}
+        if rd.get('kind') == 'VarDecl' and ((rd.get('type') or {}).get('qualType') or '').replace('const ', '') == 'bool':
+            init = _single_assignment_init(rd)
+            if init is not None:
+                return eval3(init, assume)
     return None
 
 
